@@ -29,6 +29,7 @@ import XdslModel.X86
 import XdslModel.Lexer
 import XdslModel.ArithRules
 import XdslModel.CSE
+import XdslModel.DeclFormat
 /-!
 Model registry for the driver: `MODEL <name>` selects a `(state, lineStep)` pair.
 A continuation-passing encoding is used because the state types differ.
@@ -70,6 +71,7 @@ def run? (name : String) : Option Runner :=
   | "mlir_lexer" => some fun k => k Lexer.lineStep ()
   | "arith_rules" => some fun k => k ArithRules.lineStep ()
   | "cse" => some fun k => k CSE.lineStep ()
+  | "decl_format" => some fun k => k DeclFormat.lineStep {}
   | _ => none
 
 end Xdsl.Registry
